@@ -1260,4 +1260,166 @@ theorem load_safe (E : Env) (cu0 : Option CU) (text : Str)
     · exact userFinish_safe E _ hl
     · exact hl
 
+/-! ## whatever the file: the loaded table has one record per id, none above `nextId` -/
+
+def IdsOk (db : UsersDb) : Prop :=
+  (db.users.map (·.1)).Nodup ∧ ∀ p ∈ db.users, p.1 ≤ db.nextId
+
+theorem dictSet_keys {α β : Type} [DecidableEq α] (k : α) (v : β) (l : List (α × β)) :
+    (dictSet k v l).map (·.1) = if l.any (fun p => p.1 = k) then l.map (·.1) else l.map (·.1) ++ [k] := by
+  unfold dictSet
+  split
+  · rw [List.map_map]
+    apply List.map_congr_left
+    intro p _
+    simp only [Function.comp]
+    split
+    · rename_i h; exact h.symm
+    · rfl
+  · simp
+
+theorem dictSet_nodup {α β : Type} [DecidableEq α] (k : α) (v : β) (l : List (α × β))
+    (h : (l.map (·.1)).Nodup) : ((dictSet k v l).map (·.1)).Nodup := by
+  rw [dictSet_keys]
+  split
+  · exact h
+  · rename_i hk
+    rw [List.nodup_append]
+    refine ⟨h, by simp, ?_⟩
+    intro a ha b hb
+    simp only [List.mem_singleton] at hb
+    subst hb
+    intro e; subst e
+    apply hk
+    simp only [List.mem_map] at ha
+    obtain ⟨p, hp, rfl⟩ := ha
+    simp only [List.any_eq_true, decide_eq_true_eq]
+    exact ⟨p, hp, rfl⟩
+
+theorem getUserId_keys (E : Env) (users : List (Nat × User)) (s : Str) :
+    (getUserId E users s).1.map (·.1) = users.map (·.1) := by
+  unfold getUserId
+  split
+  · simp only []
+    split
+    · rfl
+    · rfl
+    · rw [List.map_map]
+      apply List.map_congr_left
+      intro p _
+      simp only [Function.comp]
+      split <;> rfl
+  · split <;> rfl
+
+theorem setUser_ids (E : Env) (db : UsersDb) (id : Nat) (u : User) (h : IdsOk db) : IdsOk (setUser E db id u).1 := by
+  have hk := getUserId_keys E db.users u.name
+  have h1 : IdsOk { users := (getUserId E db.users u.name).1, nextId := max db.nextId id } := by
+    refine ⟨by rw [show ({ users := (getUserId E db.users u.name).1, nextId := max db.nextId id } : UsersDb).users
+        = (getUserId E db.users u.name).1 from rfl, hk]; exact h.1, ?_⟩
+    intro p hp
+    have : p.1 ∈ db.users.map (·.1) := by rw [← hk]; exact List.mem_map_of_mem hp
+    simp only [List.mem_map] at this
+    obtain ⟨q, hq, e⟩ := this
+    have := h.2 q hq
+    show p.1 ≤ max db.nextId id
+    omega
+  have h2 : IdsOk { users := dictSet id u (getUserId E db.users u.name).1, nextId := max db.nextId id } := by
+    refine ⟨dictSet_nodup _ _ _ h1.1, ?_⟩
+    intro p hp
+    rcases mem_dictSet' hp with rfl | hp
+    · show id ≤ max db.nextId id; omega
+    · exact h1.2 p hp
+  unfold setUser
+  split
+  · exact h
+  · simp only []
+    split
+    · exact h1
+    · split
+      · exact h1
+      · split
+        · exact h1
+        · exact h2
+    · split
+      · exact h1
+      · exact h2
+
+theorem userFinish_ids (E : Env) (st : UState) (h : IdsOk st.db) : IdsOk (userFinish E st).1.db := by
+  unfold userFinish
+  cases hc : st.cu with
+  | none => exact h
+  | some cu =>
+    simp only []
+    split
+    · exact h
+    · split
+      · exact h
+      · rename_i id _
+        have h1 := setUser_ids E st.db id cu.u h
+        have h2 := setUser_ids E (setUser E st.db id cu.u).1 id { cu.u with hostmasks := [] } h1
+        split
+        · exact h1
+        · split
+          · exact h2
+          · exact h2
+        · exact h1
+
+theorem reindent_ids (E : Env) (rs : RState UState) (ind : Nat) (h : IdsOk rs.st.db) :
+    IdsOk (reindent (userCreator E) rs ind).1.st.db := by
+  unfold reindent
+  split
+  · exact h
+  · have e1 : (userCreator E).finish rs.st = userFinish E rs.st := rfl
+    have e2 : ∀ s, (userCreator E).new s = userNew s := fun _ => rfl
+    rw [e1]
+    simp only [e2]
+    have hf : IdsOk (if rs.hasCreator = true then userFinish E rs.st else (rs.st, none)).1.db := by
+      split
+      · exact userFinish_ids E rs.st h
+      · exact h
+    generalize (if rs.hasCreator = true then userFinish E rs.st else (rs.st, none)) = r at hf ⊢
+    have hn : ∀ s : UState, (userNew s).db = s.db := by intro s; unfold userNew; split <;> rfl
+    split
+    · exact hf
+    · show IdsOk (userNew r.1).db
+      rw [hn]; exact hf
+
+theorem readLines_ids (E : Env) (rs : RState UState) (ls : List Str) (h : IdsOk rs.st.db) :
+    IdsOk (readLines (userCreator E) rs ls).1.st.db := by
+  induction ls generalizing rs with
+  | nil => exact h
+  | cons l ls ih =>
+    have h1 : IdsOk (readParsed (userCreator E) rs (parseLine l)).1.st.db := by
+      unfold readParsed
+      cases parseLine l with
+      | blank => exact h
+      | bad i =>
+        simp only []
+        have := reindent_ids E rs i h
+        split <;> exact this
+      | cmd i k r =>
+        simp only []
+        have hr := reindent_ids E rs i h
+        split
+        · exact hr
+        · show IdsOk (userCall _ k r).1.db
+          rw [userCall_db]; exact hr
+    unfold readLines
+    simp only []
+    split
+    · exact h1
+    · exact ih _ h1
+
+/-- **Whatever the file**, the loaded table has at most one record per id and `nextId` bounds them. -/
+theorem load_ids (E : Env) (cu0 : Option CU) (text : Str) : IdsOk (loadUsers E cu0 text).1.db := by
+  unfold loadUsers readText
+  have h0 : IdsOk (⟨cu0, {}⟩ : UState).db := ⟨by simp, fun p hp => (by cases hp)⟩
+  have hl := readLines_ids E { st := ⟨cu0, {}⟩ } (fileLines text) h0
+  simp only []
+  split
+  · exact hl
+  · split
+    · exact userFinish_ids E _ hl
+    · exact hl
+
 end C16
